@@ -2,6 +2,7 @@ import XrsVerif.Proofs.Polygonize
 import XrsVerif.Proofs.PolygonizeOrbit
 import XrsVerif.Proofs.PolygonizeRegions
 import XrsVerif.Proofs.PolygonizeLossless
+import XrsVerif.Proofs.PolygonizeLosslessB
 /-
   C15 -- polygonize is lossless.
 
@@ -252,6 +253,22 @@ theorem lossless_area_orientation {V : Type} (nx ny : Nat) (conn8 : Bool) (close
       ∃ ext holes, sc.polys.getD k [] = ext :: holes ∧ 0 < area2 ext ∧ ∀ h ∈ holes, area2 h < 0 :=
   scan_regions_area nx ny conn8 close values mask hnx hsymm htrans _ rfl
 
+/-- **Polygonize is lossless -- the complete statement.**  For every raster size, values, mask and
+    connectivity (closeness reflexive, symmetric, transitive: integer rasters) `scan` succeeds and its result
+    passes `losslessB`, the decidable formalisation of the whole property: every unmasked pixel centre in
+    exactly one polygon (exterior minus holes, even-odd rule) carrying its value, masked pixels in none; two
+    pixels in the same polygon exactly when they are in the same connected region (as labelled by C16's
+    `regions`); each polygon's shoelace area = its pixel count; exteriors anticlockwise, holes clockwise; rings
+    closed, on pixel corners, axis-parallel edges of non-zero length, at least four vertices. -/
+theorem lossless {V : Type} (nx ny : Nat) (conn8 : Bool) (close : V → V → Bool)
+    (values : Nat → V) (mask : Nat → Bool) (hnx : 0 < nx) (hrefl : ∀ a, close a a = true)
+    (hsymm : ∀ a b, close a b = true → close b a = true)
+    (htrans : ∀ a b c, close a b = true → close b c = true → close a c = true) :
+    let sc := scan nx ny conn8 close values mask
+    sc.ok = true ∧ losslessB nx ny conn8 close values mask sc.column.reverse sc.polys = true :=
+  ⟨(scan_cells_lossless nx ny conn8 close values mask hnx hrefl hsymm htrans _ rfl).1,
+   scan_losslessB nx ny conn8 close values mask hnx hrefl hsymm htrans _ rfl⟩
+
 /-! ### non-vacuity, and the full statement evaluated on concrete rasters -/
 
 def eqI (a b : Int) : Bool := a == b
@@ -265,6 +282,16 @@ def holds (nx ny : Nat) (c8 : Bool) (values : Nat → Int) (mask : Nat → Bool)
 def ringV : Nat → Int := fun ij => if ij = 4 then 0 else 1
 /-- 2×2 checkerboard: a diagonal pinch (one bow-tie polygon per value with connectivity 8) -/
 def pinchV : Nat → Int := fun ij => if ij = 0 ∨ ij = 3 then 1 else 0
+
+/-- for integer rasters (closeness = equality) the full check holds for **every** raster -/
+theorem holds_all (nx ny : Nat) (c8 : Bool) (values : Nat → Int) (mask : Nat → Bool) (hnx : 0 < nx) :
+    holds nx ny c8 values mask = true := by
+  have := lossless nx ny c8 eqI values mask hnx (fun a => by simp [eqI])
+    (fun a b h => by simp only [eqI, beq_iff_eq] at *; exact h.symm)
+    (fun a b c h1 h2 => by simp only [eqI, beq_iff_eq] at *; exact h1.trans h2)
+  unfold holds
+  simp only [Bool.and_eq_true]
+  exact this
 
 example : (scan 3 3 false eqI ringV (fun _ => true)).polys =
     [[[(0, 0), (3, 0), (3, 3), (0, 3), (0, 0)], [(2, 1), (1, 1), (1, 2), (2, 2), (2, 1)]],
